@@ -660,9 +660,16 @@ impl Sys {
             }
             let mut poss: Vec<u32> = (0..=d.capacity as u32 + 1).collect();
             poss.push(MAX_POS);
+            let declared: Vec<u8> = (0..NARCH).map(arch_id).collect();
+            let gen0 = d.slots.first().map(|s| s.1).unwrap_or(1);
             for &pos in &poss {
                 for &g in &gens {
                     for &byte in &bytes {
+                        // An undeclared archetype byte only ever reaches the default arm of the id dispatch, before
+                        // position or generation are looked at: two positions x two generations represent the class.
+                        if !declared.contains(&byte) && !((pos == 0 || pos == d.capacity as u32) && (g == 1 || g == gen0)) {
+                            continue;
+                        }
                         let bits = ((pos << 8) | byte as u32, g);
                         with_arch!(t as usize, A => self.probe_forged::<A>(w, bits))?;
                     }
